@@ -1212,7 +1212,7 @@ PROPERTY = Property(
         SubCheck("rejects", reject_cases(), check_rejects, quick=280, thorough=4000,
                  rule="reversed / zero-width band, missing rms or half of (T,R), antenna without band or rms "
                       "-> ValueError; every case non-trivial",
-                 floors={"reversed": 0.06, "equal": 0.03, "no_rms": 0.08, "antenna_no_rms": 0.08}),
+                 floors={"reversed": 0.03, "equal": 0.02, "no_rms": 0.03, "antenna_no_rms": 0.03}),
         SubCheck("full_cosines", full_cases(), check_full, quick=1600, thorough=80000,
                  rule="cosine class: own values and 1-3 arbitrary windows (other spacing, up to 3 spans away) vs "
                       "the cosine sum of the published basis in absolute time; non-trivial = >=2 frequencies",
